@@ -10,6 +10,7 @@
 //   - api.writeCutOutputWith,
 //   - the form multi-fill transaction (multifill.go): api.multiFillFormJSONWith / multiFillFormCSVWith
 //     and their record writer api.writeMultiFillOutputWith,
+//   - attachment extraction (attach.go): api.writeAttachments (reservations) and api.writeAttachmentToPath,
 //   - pdfcpu.WriteContext, pdfcpu.WriteReader, pdfcpu.CopyFile, pdfcpu.Write
 //
 // into a row `FRow pkg name helper key via`. It understands exactly the shapes described
@@ -1311,6 +1312,7 @@ func main() {
 	rows = append(rows, g.classifyCut())
 	rows = append(rows, g.pdfRows()...)
 	rows = append(rows, g.multiFillRows()...)
+	rows = append(rows, g.attachRows()...)
 
 	sort.Slice(rows, func(i, j int) bool {
 		if rows[i].pkg != rows[j].pkg {
